@@ -71,6 +71,9 @@ CHECKS = {
  'C20': dict(cat='proof', tech='deductive: ghost callback counters and lock-discipline obligations on the real Session._set_keyspace_for_all_pools, HostConnection/HostConnectionPool._set_keyspace_for_all_conns, Connection.set_keyspace_async, ResponseFuture._set_keyspace_completed, pool constructors',
              text='Exactly-once completion with the union of all errors is proved for up to 3 pools / 2 legacy connections under every completion order and outcome combination (enumerated); the keyspace is remembered for connections opened later, including pools that had no connection during the switch.',
              ref='DESIGN.md §4 C20'),
+ 'C43': dict(cat='proof', tech='deductive: postconditions on the real ControlConnection._get_schema_mismatches (version sets enumerated symbolically), wait_for_schema_agreement (symbolic clock, bounded polls), refresh_schema_and_set_result and the SCHEMA_CHANGE branch of ResponseFuture._set_result',
+             text='Agreement is reported iff exactly one schema version is seen among the control host and the live known peers; the wait loop returns True only on agreement and False only after the deadline; the future flag is False until the wait finishes. Poll count is bounded at 3 (loop unrolled).',
+             ref='DESIGN.md §4 C43'),
 }
 
 NA_REASON = {}
